@@ -2459,3 +2459,752 @@ Proof.
   intros H. specialize (H uni_ascii true [(bs "a?", false)]).
   vm_compute in H. discriminate H.
 Qed.
+
+(* ================================================================== *)
+(** * 2c. The printed literal lexes as one string token                *)
+(* ================================================================== *)
+
+Lemma c9_invalid_34 : zmem 34 invalid_runes = true. Proof. vm_compute. reflexivity. Qed.
+Lemma c9_ident_34 : forall uni, is_ident_rune uni 34 = false.
+Proof. intros uni. unfold is_ident_rune. rewrite c9_invalid_34. reflexivity. Qed.
+
+(** a string token inside a longer input *)
+Lemma tokens_string : forall uni k q0 cs q rest,
+  rsafe false cs = true ->
+  tokens_fuel uni (S k) ((34, q0) :: cs ++ (34, q) :: rest)
+  = option_map (cons (mkTok TString (q0 ++ concat (map snd cs) ++ q) (peek rest)))
+               (tokens_fuel uni k rest).
+Proof.
+  intros uni k q0 cs q rest Hs. cbn [tokens_fuel].
+  replace (is_ws 34) with false by reflexivity. rewrite c9_ident_34.
+  replace (34 =? 34) with true by reflexivity.
+  destruct (scan_string_safe (length cs) cs (le_n _) Hs
+              (S (length (cs ++ (34, q) :: rest))) q rest q0 O) as [n' Hn'].
+  { rewrite app_length. cbn [length]. lia. }
+  rewrite Hn'. reflexivity.
+Qed.
+
+(** the literal printed for the value v is lexable when the escaped text
+    decodes (valid UTF-8, no NUL) into runes the string scanner accepts *)
+Definition lit_ok (v : str) : Prop :=
+  exists cs, chars_fuel (S (length (escape v))) (escape v) = Some cs /\ rsafe false cs = true.
+
+Lemma c9_chars_quote_app : forall s cs,
+  chars_fuel (S (length s)) s = Some cs ->
+  chars_fuel (S (length (bs """" ++ s ++ bs """"))) (bs """" ++ s ++ bs """")
+  = Some ((34, bs """") :: cs ++ [(34, bs """")]).
+Proof.
+  intros s cs H.
+  change (bs """" ++ s ++ bs """") with (dquote :: (s ++ bs """")).
+  rewrite rp_chars_ascii by (vm_compute; split; reflexivity).
+  rewrite (rp_chars_app s cs (bs """") H).
+  reflexivity.
+Qed.
+
+Theorem C09_literal_lex : forall uni v, lit_ok v ->
+  lex uni (param_string (FPStr v))
+  = Some [mkTok TString (param_string (FPStr v)) (-1)].
+Proof.
+  intros uni v (cs & Hcs & Hs). cbn [param_string]. unfold lex, chars.
+  rewrite (c9_chars_quote_app _ _ Hcs).
+  replace (34 =? bom) with false by reflexivity.
+  cbn [length]. rewrite tokens_string by exact Hs.
+  assert (Hb : concat (map snd cs) = escape v).
+  { apply (rp_chars_fuel_bytes _ _ _ Hcs). lia. }
+  rewrite Hb.
+  destruct (length (cs ++ [(34, bs """")])) as [|k] eqn:El.
+  { rewrite app_length in El. cbn [length] in El. lia. }
+  reflexivity.
+Qed.
+
+(** *** a syntactic class of lexable values: ASCII (no NUL), clean, not ending
+    in an odd run of backslashes *)
+Fixpoint leading_bslashes (s : str) : nat :=
+  match s with c :: s' => if Ascii.eqb c bslash then S (leading_bslashes s') else O | [] => O end.
+Definition trailing_bslashes (v : str) : nat := leading_bslashes (rev v).
+
+(** the pairing of backslashes from the left; true = a backslash is pending *)
+Fixpoint bs_pairs (st : bool) (v : str) : bool :=
+  match v with
+  | [] => st
+  | c :: v' => if st then bs_pairs false v' else bs_pairs (Ascii.eqb c bslash) v'
+  end.
+
+Lemma bs_pairs_app st a b : bs_pairs st (a ++ b) = bs_pairs (bs_pairs st a) b.
+Proof. revert st. induction a as [|c a IH]; intros st; [reflexivity|]. cbn [app bs_pairs]. destruct st; apply IH. Qed.
+
+Lemma leading_bslashes_rev_snoc v c :
+  leading_bslashes (rev (v ++ [c])) = if Ascii.eqb c bslash then S (leading_bslashes (rev v)) else O.
+Proof. rewrite rev_app_distr. reflexivity. Qed.
+
+Lemma bs_pairs_trailing : forall v, bs_pairs false v = Nat.odd (trailing_bslashes v).
+Proof.
+  unfold trailing_bslashes. induction v as [|c v IH] using rev_ind; [reflexivity|].
+  rewrite bs_pairs_app, IH, leading_bslashes_rev_snoc. cbn [bs_pairs].
+  destruct (Ascii.eqb c bslash).
+  - rewrite Nat.odd_succ, <- Nat.negb_odd. destruct (Nat.odd (leading_bslashes (rev v))); reflexivity.
+  - destruct (Nat.odd (leading_bslashes (rev v))); reflexivity.
+Qed.
+
+Definition asc_runes (w : str) : list (Z * str) := map (fun c => (byte c, [c])) w.
+Definition is_asc (c : ascii) : bool := (0 <? byte c) && (byte c <? 128).
+
+Lemma byte_const_facts : forall c,
+  Bool.eqb (byte c =? 34) (Ascii.eqb c dquote) && Bool.eqb (byte c =? 10) (Ascii.eqb c lfchar) &&
+  Bool.eqb (byte c =? 92) (Ascii.eqb c bslash) && implb (is_asc c) (forallb is_asc (esc_byte c)) = true.
+Proof. apply forall_bytes. vm_compute. reflexivity. Qed.
+
+Lemma byte_consts c :
+  (byte c =? 34) = Ascii.eqb c dquote /\ (byte c =? 10) = Ascii.eqb c lfchar /\
+  (byte c =? 92) = Ascii.eqb c bslash /\ (is_asc c = true -> forallb is_asc (esc_byte c) = true).
+Proof.
+  pose proof (byte_const_facts c) as H.
+  apply andb_true_iff in H. destruct H as [H H4].
+  apply andb_true_iff in H. destruct H as [H H3].
+  apply andb_true_iff in H. destruct H as [H1 H2].
+  apply Bool.eqb_prop in H1. apply Bool.eqb_prop in H2. apply Bool.eqb_prop in H3.
+  repeat split; try assumption.
+  intros Ha. rewrite Ha in H4. exact H4.
+Qed.
+
+Lemma neq_eqb_false (a b : ascii) : a <> b -> Ascii.eqb a b = false.
+Proof. intros H. destruct (Ascii.eqb a b) eqn:E; [apply Ascii.eqb_eq in E; contradiction|reflexivity]. Qed.
+
+Lemma rsafe_asc_cons st c w :
+  rsafe st (asc_runes (c :: w)) =
+  if st then negb (Ascii.eqb c lfchar) && rsafe false (asc_runes w)
+  else if Ascii.eqb c dquote || Ascii.eqb c lfchar then false else rsafe (Ascii.eqb c bslash) (asc_runes w).
+Proof.
+  destruct (byte_consts c) as (H1 & H2 & H3 & _).
+  unfold asc_runes. cbn [map rsafe]. rewrite H1, H2, H3. reflexivity.
+Qed.
+
+(** the scanner automaton on the escaped text = the backslash pairing on the value *)
+Lemma rsafe_escape : forall v st, clean v ->
+  (st = true -> match v with d :: _ => is_second d = false | [] => True end) ->
+  rsafe st (asc_runes (flat_map esc_byte v)) = negb (bs_pairs st v).
+Proof.
+  induction v as [|c v IH]; intros st Hc Hst; [reflexivity|].
+  pose proof (clean_tail _ _ Hc) as Hc'.
+  cbn [flat_map bs_pairs].
+  destruct (Ascii.eqb c bslash) eqn:Hcb.
+  - apply Ascii.eqb_eq in Hcb. subst c. rewrite esc_byte_bslash. cbn [app].
+    rewrite rsafe_asc_cons. rewrite Ascii.eqb_refl.
+    replace (Ascii.eqb bslash lfchar) with false by reflexivity.
+    replace (Ascii.eqb bslash dquote) with false by reflexivity.
+    cbn [negb andb orb].
+    destruct st.
+    + apply IH; [exact Hc'|discriminate].
+    + apply IH; [exact Hc'|]. intros _. destruct v as [|d v']; [exact I|].
+      apply (clean_bslash_next d v'). exact Hc.
+  - destruct (byte_cases c) as [Hp Hq Hl|z Hs Hnb Hzl Hzb Hu Hzq].
+    + rewrite Hp. cbn [app]. rewrite rsafe_asc_cons.
+      rewrite (neq_eqb_false _ _ Hq), (neq_eqb_false _ _ Hl), Hcb. cbn [negb andb orb].
+      destruct st; apply IH; try exact Hc'; discriminate.
+    + rewrite Hs. cbn [app]. destruct st.
+      * (* pending backslash: the inserted backslash is consumed, z is scanned plainly *)
+        rewrite rsafe_asc_cons.
+        replace (Ascii.eqb bslash lfchar) with false by reflexivity. cbn [negb andb].
+        rewrite rsafe_asc_cons.
+        specialize (Hst eq_refl). cbn in Hst.
+        rewrite (neq_eqb_false _ _ (Hzq Hst)), (neq_eqb_false _ _ Hzl), (neq_eqb_false _ _ Hzb).
+        cbn [orb]. apply IH; [exact Hc'|discriminate].
+      * rewrite rsafe_asc_cons.
+        replace (Ascii.eqb bslash lfchar) with false by reflexivity.
+        replace (Ascii.eqb bslash dquote) with false by reflexivity.
+        rewrite Ascii.eqb_refl. cbn [orb].
+        rewrite rsafe_asc_cons.
+        rewrite (neq_eqb_false _ _ Hzl). cbn [negb andb].
+        apply IH; [exact Hc'|discriminate].
+Qed.
+
+Lemma chars_asc : forall w, forallb is_asc w = true ->
+  chars_fuel (S (length w)) w = Some (asc_runes w).
+Proof.
+  induction w as [|c w IH]; intros H; [reflexivity|].
+  cbn [forallb] in H. apply andb_true_iff in H. destruct H as [Hc Hw].
+  unfold is_asc in Hc. apply andb_true_iff in Hc. destruct Hc as [H0 H1].
+  apply Z.ltb_lt in H0. apply Z.ltb_lt in H1.
+  rewrite rp_chars_ascii by lia. rewrite (IH Hw). reflexivity.
+Qed.
+
+Lemma escape_asc : forall v, forallb is_asc v = true -> forallb is_asc (flat_map esc_byte v) = true.
+Proof.
+  induction v as [|c v IH]; intros H; [reflexivity|].
+  cbn [forallb] in H. apply andb_true_iff in H. destruct H as [Hc Hv].
+  cbn [flat_map]. rewrite forallb_app, (IH Hv), andb_true_r.
+  destruct (byte_consts c) as (_ & _ & _ & Ha). apply Ha. exact Hc.
+Qed.
+
+Theorem lit_ok_ascii : forall v,
+  Forall (fun c => 0 < byte c < 128) v -> clean v -> Nat.even (trailing_bslashes v) = true ->
+  lit_ok v.
+Proof.
+  intros v Ha Hc Ht.
+  assert (Hasc : forallb is_asc v = true).
+  { apply forallb_forall. intros c Hin. rewrite Forall_forall in Ha. specialize (Ha c Hin).
+    unfold is_asc. apply andb_true_iff. split; apply Z.ltb_lt; lia. }
+  exists (asc_runes (escape v)). split.
+  - apply chars_asc. rewrite escape_bytewise. apply escape_asc. exact Hasc.
+  - rewrite escape_bytewise, (rsafe_escape v false Hc) by discriminate.
+    rewrite bs_pairs_trailing, <- Nat.negb_even, Ht. reflexivity.
+Qed.
+
+(** C09_literal_roundtrip: the literal Sprint prints for a clean, lexable
+    value is one string token, and the parser's reading of that token
+    (unescape of the text between the quotes) is the value. *)
+Theorem C09_literal_roundtrip : forall uni v, clean v -> lit_ok v ->
+  exists t, lex uni (param_string (FPStr v)) = Some [t] /\ tk t = TString /\
+            unescape (strip_dquotes (ttext t)) = v.
+Proof.
+  intros uni v Hc Hl. eexists. split; [apply C09_literal_lex; exact Hl|].
+  split; [reflexivity|]. cbn [ttext]. apply C09_literal_value. exact Hc.
+Qed.
+
+Corollary C09_literal_roundtrip_ascii : forall uni v,
+  Forall (fun c => 0 < byte c < 128) v -> clean v -> Nat.even (trailing_bslashes v) = true ->
+  exists t, lex uni (param_string (FPStr v)) = Some [t] /\ tk t = TString /\
+            unescape (strip_dquotes (ttext t)) = v.
+Proof. intros uni v Ha Hc Ht. apply C09_literal_roundtrip; [exact Hc|apply lit_ok_ascii; assumption]. Qed.
+
+(** a value ending in a single backslash prints as a literal that does not lex *)
+Example C09_literal_trailing_bslash_refuted :
+  let v := [bslash] in clean v /\ lex uni_ascii (param_string (FPStr v)) = None.
+Proof. vm_compute. split; reflexivity. Qed.
+
+(* ================================================================== *)
+(** * 4. `?` marks                                                      *)
+(* ================================================================== *)
+Theorem C09_key_roundtrip : forall (name : str) (q : bool),
+  (q = false -> forall k', name <> k' ++ bs "?") ->
+  strip_qmark (name ++ (if q then bs "?" else [])) = (name, q).
+Proof. intros name q H. exact (rp_strip_qmark_piece (name, q) H). Qed.
+
+(** the corner: a key that itself ends in `?` and carries no mark is printed
+    as name, and read back as the shorter key with the mark set *)
+Theorem C09_key_roundtrip_trailing_qmark : forall k',
+  strip_qmark ((k' ++ bs "?") ++ []) = (k', true).
+Proof.
+  intros k'. rewrite app_nil_r. unfold strip_qmark. rewrite rev_app_distr. cbn.
+  rewrite rev_involutive. reflexivity.
+Qed.
+
+(* ================================================================== *)
+(** * 5 (continued). Key-only paths: the reparsed tree is structurally equal *)
+(* ================================================================== *)
+Lemma ops_keys_struct_eq : forall ops ks, ops_keys ops ks ->
+  Forall2 struct_eq_pathop ops (key_ops ks).
+Proof.
+  intros ops ks H. induction H as [|o kq ops ks [us ->] _ IH]; [constructor|].
+  cbn [key_ops map]. constructor; [constructor|exact IH].
+Qed.
+
+Theorem C09_keypath_struct_eq : forall uni inv root me ops us ks,
+  ops_keys ops ks -> Forall (good_key uni) ks ->
+  let a := Path inv root false me ops us in
+  exists a', parse_string uni (sprint_top (TopP a)) = Ok (TopP a') /\
+             struct_eq (TopP a) (TopP a') /\
+             sprint_top (TopP a') = sprint_top (TopP a) /\
+             path_us a' = sprint_top (TopP a).
+Proof.
+  intros uni inv root me ops us ks Hk Hg a. unfold a.
+  rewrite (C09_keypath_sprint inv root false me ops us ks Hk).
+  exists (Path false root false false (key_ops ks) (key_text root ks)).
+  split; [apply C09_keypath_reparse; exact Hg|].
+  split; [constructor; constructor; apply ops_keys_struct_eq; exact Hk|].
+  split; [|reflexivity].
+  apply C09_keypath_sprint.
+  clear. induction ks as [|kq ks IH]; [constructor|].
+  cbn [key_ops map]. constructor; [eexists; reflexivity|exact IH].
+Qed.
+
+(** and therefore evaluates to the same result on every data value *)
+Corollary C09_keypath_same_result : forall uni eng inv root me ops us ks data,
+  ops_keys ops ks -> Forall (good_key uni) ks ->
+  let a := Path inv root false me ops us in
+  exists a', parse_string uni (sprint_top (TopP a)) = Ok (TopP a') /\
+             do_top uni eng (TopP a') data = do_top uni eng (TopP a) data.
+Proof.
+  intros uni eng inv root me ops us ks data Hk Hg a.
+  destruct (C09_keypath_struct_eq uni inv root me ops us ks Hk Hg) as (a' & Hp & Hs & _).
+  exists a'. split; [exact Hp|]. symmetry. apply C09_same_result_top. exact Hs.
+Qed.
+
+(* ================================================================== *)
+(** * 2d. Every value the parser can store for a literal survives       *)
+(* ================================================================== *)
+
+(** [clean] is stronger than needed: a backslash may be followed by a byte
+    that escape rewrites (a quote, a control byte); only a backslash followed
+    by one of the letters that unescape consumes is fatal. *)
+Definition bad_after_bslash (d : ascii) : bool := is_second d && str_eqb (esc_byte d) [d].
+
+Fixpoint wclean_b (v : str) : bool :=
+  match v with
+  | [] => true
+  | c :: v' =>
+    (negb (Ascii.eqb c bslash) || match v' with d :: _ => negb (bad_after_bslash d) | [] => true end)
+    && wclean_b v'
+  end.
+Definition wclean (v : str) : Prop := wclean_b v = true.
+
+Lemma clean_wclean : forall v, clean v -> wclean v.
+Proof.
+  unfold clean, wclean. induction v as [|c v IH]; intros H; [reflexivity|].
+  cbn [clean_b wclean_b] in *. apply andb_true_iff in H. destruct H as [H1 H2].
+  rewrite (IH H2), andb_true_r.
+  destruct (Ascii.eqb c bslash); [|reflexivity]. cbn [negb orb] in *.
+  destruct v as [|d v']; [reflexivity|].
+  unfold bad_after_bslash. apply negb_true_iff in H1. rewrite H1. reflexivity.
+Qed.
+
+(** table facts about the unescape side, byte by byte *)
+Definition unesc_fact (d : ascii) : bool :=
+  match unesc_byte d with
+  | Some y => str_eqb (esc_byte y) [bslash; d] && negb (Ascii.eqb y bslash) && is_second d
+              && negb (Ascii.eqb d lfchar) && negb (Ascii.eqb d bslash) && is_asc y && is_asc d
+  | None => negb (is_second d)
+  end.
+Lemma unesc_fact_all : forall d, unesc_fact d = true.
+Proof. apply forall_bytes. vm_compute. reflexivity. Qed.
+
+Lemma unesc_some d y : unesc_byte d = Some y ->
+  esc_byte y = [bslash; d] /\ y <> bslash /\ is_second d = true /\ d <> lfchar /\ d <> bslash /\
+  is_asc y = true /\ is_asc d = true.
+Proof.
+  intros H. pose proof (unesc_fact_all d) as F. unfold unesc_fact in F. rewrite H in F.
+  apply andb_true_iff in F. destruct F as [F F7].
+  apply andb_true_iff in F. destruct F as [F F6].
+  apply andb_true_iff in F. destruct F as [F F5].
+  apply andb_true_iff in F. destruct F as [F F4].
+  apply andb_true_iff in F. destruct F as [F F3].
+  apply andb_true_iff in F. destruct F as [F1 F2].
+  apply str_eqb_eq in F1.
+  repeat split; try assumption; apply neqb_neq; assumption.
+Qed.
+
+Lemma unesc_none d : unesc_byte d = None -> is_second d = false.
+Proof.
+  intros H. pose proof (unesc_fact_all d) as F. unfold unesc_fact in F. rewrite H in F.
+  apply negb_true_iff in F. exact F.
+Qed.
+
+Lemma not_bad_of_none d : unesc_byte d = None -> bad_after_bslash d = false.
+Proof. intros H. unfold bad_after_bslash. rewrite (unesc_none d H). reflexivity. Qed.
+
+Lemma not_bad_special y d : esc_byte y = [bslash; d] -> bad_after_bslash y = false.
+Proof.
+  intros H. unfold bad_after_bslash. rewrite H.
+  destruct (is_second y); [|reflexivity]. cbn [andb str_eqb].
+  rewrite andb_false_r. reflexivity.
+Qed.
+
+Lemma wclean_tail c v : wclean (c :: v) -> wclean v.
+Proof. unfold wclean. cbn [wclean_b]. intros H. apply andb_true_iff in H. tauto. Qed.
+
+Lemma wclean_bslash_next d v : wclean (bslash :: d :: v) -> bad_after_bslash d = false.
+Proof.
+  unfold wclean. cbn [wclean_b]. intros H. apply andb_true_iff in H. destruct H as [H _].
+  rewrite Ascii.eqb_refl in H. cbn [negb orb] in H. apply negb_true_iff in H. exact H.
+Qed.
+
+Lemma esc_head_unesc_none_w : forall d v, bad_after_bslash d = false ->
+  match flat_map esc_byte (d :: v) with e :: _ => unesc_byte e = None | [] => True end.
+Proof.
+  intros d v Hd. cbn [flat_map].
+  destruct (byte_cases d) as [Hp _ _|z Hs _ _ _ _ _].
+  - rewrite Hp. cbn [app]. unfold bad_after_bslash in Hd. rewrite Hp, str_eqb_refl, andb_true_r in Hd.
+    apply not_second_unesc. exact Hd.
+  - rewrite Hs. cbn [app]. exact unesc_byte_bslash.
+Qed.
+
+Lemma unesc_esc_wclean : forall v, wclean v -> unesc_pass unesc_byte (flat_map esc_byte v) = v.
+Proof.
+  induction v as [|c v IH]; intros Hc; [reflexivity|].
+  pose proof (IH (wclean_tail _ _ Hc)) as IHv.
+  destruct (Ascii.eqb c bslash) eqn:Hcb.
+  - apply Ascii.eqb_eq in Hcb. subst c.
+    cbn [flat_map]. rewrite esc_byte_bslash. cbn [app].
+    rewrite pass_bs_none; [rewrite IHv; reflexivity|].
+    destruct v as [|d v']; [exact I|].
+    apply esc_head_unesc_none_w. apply (wclean_bslash_next d v'). exact Hc.
+  - cbn [flat_map]. destruct (byte_cases c) as [Hp _ _|z Hs _ _ _ Hu _].
+    + rewrite Hp. cbn [app]. rewrite pass_cons_nb by exact Hcb. rewrite IHv. reflexivity.
+    + rewrite Hs. cbn [app]. rewrite (pass_bs_some unesc_byte z c) by exact Hu. rewrite IHv. reflexivity.
+Qed.
+
+Theorem C09_unescape_escape_weak : forall v, wclean v -> unescape (escape v) = v.
+Proof. intros v Hc. rewrite unescape_pass, escape_bytewise. apply unesc_esc_wclean. exact Hc. Qed.
+
+(** the head of an unescaped string *)
+Lemma unesc_head_not_bad : forall s,
+  match s with d :: _ => unesc_byte d = None | [] => True end ->
+  match unesc_pass unesc_byte s with e :: _ => bad_after_bslash e = false | [] => True end.
+Proof.
+  intros [|c [|d s'']] H; [exact I| |].
+  - cbn [unesc_pass]. apply not_bad_of_none. exact H.
+  - cbn [unesc_pass]. destruct (Ascii.eqb c bslash) eqn:Hc.
+    + destruct (unesc_byte d) as [y|] eqn:Hd.
+      * destruct (unesc_some d y Hd) as (He & _). apply (not_bad_special y d He).
+      * apply not_bad_of_none. exact H.
+    + apply not_bad_of_none. exact H.
+Qed.
+
+Lemma wclean_unesc_n : forall n (s : str), (length s <= n)%nat -> wclean (unesc_pass unesc_byte s).
+Proof.
+  unfold wclean. induction n as [|n IH]; intros s Hn.
+  - destruct s; [reflexivity|cbn [length] in Hn; lia].
+  - destruct s as [|c [|d s'']]; [reflexivity| |].
+    + cbn [unesc_pass wclean_b]. rewrite orb_true_r. reflexivity.
+    + cbn [length] in Hn.
+      destruct (Ascii.eqb c bslash) eqn:Hc.
+      * apply Ascii.eqb_eq in Hc. subst c.
+        destruct (unesc_byte d) as [y|] eqn:Hd.
+        -- rewrite (pass_bs_some unesc_byte d y) by exact Hd.
+           destruct (unesc_some d y Hd) as (_ & Hyb & _).
+           cbn [wclean_b]. rewrite (neq_eqb_false _ _ Hyb). cbn [negb orb andb]. apply IH. lia.
+        -- rewrite pass_bs_none by exact Hd.
+           cbn [wclean_b]. rewrite Ascii.eqb_refl. cbn [negb orb].
+           rewrite (IH (d :: s'')) by (cbn [length]; lia). rewrite andb_true_r.
+           pose proof (unesc_head_not_bad (d :: s'') Hd) as Hh.
+           destruct (unesc_pass unesc_byte (d :: s'')) as [|e r]; [reflexivity|].
+           rewrite Hh. reflexivity.
+      * rewrite pass_cons_nb by exact Hc. cbn [wclean_b]. rewrite Hc. cbn [negb orb andb].
+        apply IH. cbn [length]. lia.
+Qed.
+
+Theorem C09_unescape_image_wclean : forall s, wclean (unescape s).
+Proof. intros s. rewrite unescape_pass. exact (wclean_unesc_n (length s) s (le_n _)). Qed.
+
+(** unescape-after-escape is the identity on everything unescape can produce,
+    i.e. on every value the parser stores for a string (or character) literal *)
+Theorem C09_unescape_escape_on_image : forall s, unescape (escape (unescape s)) = unescape s.
+Proof. intros s. apply C09_unescape_escape_weak. apply C09_unescape_image_wclean. Qed.
+
+(** ** the scanner automaton on bytes *)
+Fixpoint lit_safe (st : bool) (w : str) : bool :=
+  match w with
+  | [] => negb st
+  | c :: w' =>
+    if st then negb (Ascii.eqb c lfchar) && lit_safe false w'
+    else if Ascii.eqb c dquote || Ascii.eqb c lfchar then false
+    else lit_safe (Ascii.eqb c bslash) w'
+  end.
+
+Lemma rsafe_asc : forall w st, rsafe st (asc_runes w) = lit_safe st w.
+Proof.
+  induction w as [|c w IH]; intros st; [reflexivity|].
+  rewrite rsafe_asc_cons. cbn [lit_safe]. rewrite !IH. reflexivity.
+Qed.
+
+Lemma lit_safe_plain st c w : c <> dquote -> c <> lfchar -> c <> bslash ->
+  lit_safe st (c :: w) = lit_safe false w.
+Proof.
+  intros H1 H2 H3. cbn [lit_safe].
+  rewrite (neq_eqb_false _ _ H1), (neq_eqb_false _ _ H2), (neq_eqb_false _ _ H3).
+  destruct st; reflexivity.
+Qed.
+
+(** a body the scanner accepts, unescaped then escaped again, is accepted *)
+Lemma lit_safe_esc_unesc : forall n (s : str) st, (length s <= n)%nat ->
+  (st = true -> match s with d :: _ => unesc_byte d = None | [] => True end) ->
+  lit_safe st s = true ->
+  lit_safe st (flat_map esc_byte (unesc_pass unesc_byte s)) = true.
+Proof.
+  induction n as [|n IH]; intros s st Hn Hinv Hs.
+  - destruct s; [exact Hs|cbn [length] in Hn; lia].
+  - destruct s as [|c s']; [exact Hs|]. cbn [length] in Hn.
+    (* one byte [c] emitted by unescape, in scanner state st, followed by rest *)
+    assert (Hemit : forall rest,
+              (st = true -> unesc_byte c = None) ->
+              Ascii.eqb c bslash = false ->
+              lit_safe st (c :: rest) = true ->
+              forall out, lit_safe false rest = true -> lit_safe false out = true ->
+              lit_safe st (esc_byte c ++ out) = true).
+    { intros rest Hi Hcb Hl out _ Hout.
+      destruct (byte_cases c) as [Hp Hq Hlf|z Hz Hnb Hzl Hzb Hu Hzq].
+      - rewrite Hp. cbn [app]. rewrite lit_safe_plain; [exact Hout|exact Hq|exact Hlf|].
+        intros E. subst c. rewrite Ascii.eqb_refl in Hcb. discriminate.
+      - rewrite Hz. cbn [app]. destruct st.
+        + cbn [lit_safe]. replace (Ascii.eqb bslash lfchar) with false by reflexivity. cbn [negb andb].
+          assert (Hsec : is_second c = false) by (apply unesc_none; apply Hi; reflexivity).
+          rewrite (neq_eqb_false _ _ (Hzq Hsec)), (neq_eqb_false _ _ Hzl), (neq_eqb_false _ _ Hzb).
+          cbn [orb]. exact Hout.
+        + cbn [lit_safe].
+          replace (Ascii.eqb bslash lfchar) with false by reflexivity.
+          replace (Ascii.eqb bslash dquote) with false by reflexivity.
+          rewrite Ascii.eqb_refl. cbn [orb]. rewrite (neq_eqb_false _ _ Hzl). cbn [negb andb].
+          exact Hout. }
+    destruct s' as [|d s''].
+    + (* last byte *)
+      cbn [unesc_pass flat_map]. rewrite app_nil_r.
+      destruct (Ascii.eqb c bslash) eqn:Hcb.
+      * apply Ascii.eqb_eq in Hcb. subst c. rewrite esc_byte_bslash. exact Hs.
+      * rewrite <- (app_nil_r (esc_byte c)).
+        apply (Hemit []); [exact Hinv|first [exact Hcb|reflexivity]|exact Hs|reflexivity|reflexivity].
+    + cbn [length] in Hn.
+      destruct (Ascii.eqb c bslash) eqn:Hcb.
+      * apply Ascii.eqb_eq in Hcb. subst c.
+        destruct (unesc_byte d) as [y|] eqn:Hd.
+        -- (* a rule: the two bytes come back as they were *)
+           rewrite (pass_bs_some unesc_byte d y) by exact Hd.
+           destruct (unesc_some d y Hd) as (He & _ & Hsec & Hdl & Hdb & _).
+           cbn [flat_map]. rewrite He. cbn [app].
+           assert (IHs : lit_safe false s'' = true ->
+                         lit_safe false (flat_map esc_byte (unesc_pass unesc_byte s'')) = true).
+           { intros H. apply IH; [lia|discriminate|exact H]. }
+           destruct st.
+           ++ cbn [lit_safe] in Hs |- *.
+              replace (Ascii.eqb bslash lfchar) with false in * by reflexivity. cbn [negb andb] in *.
+              destruct (Ascii.eqb d dquote || Ascii.eqb d lfchar); [discriminate|].
+              rewrite (neq_eqb_false _ _ Hdb) in *. apply IHs. exact Hs.
+           ++ cbn [lit_safe] in Hs |- *.
+              replace (Ascii.eqb bslash lfchar) with false in * by reflexivity.
+              replace (Ascii.eqb bslash dquote) with false in * by reflexivity.
+              rewrite Ascii.eqb_refl in *. cbn [orb] in *.
+              rewrite (neq_eqb_false _ _ Hdl) in *. cbn [negb andb] in *. apply IHs. exact Hs.
+        -- rewrite pass_bs_none by exact Hd.
+           cbn [flat_map]. rewrite esc_byte_bslash. cbn [app].
+           destruct st.
+           ++ cbn [lit_safe] in Hs |- *.
+              replace (Ascii.eqb bslash lfchar) with false in * by reflexivity. cbn [negb andb] in *.
+              apply IH; [cbn [length]; lia|discriminate|exact Hs].
+           ++ cbn [lit_safe] in Hs |- *.
+              replace (Ascii.eqb bslash lfchar) with false in * by reflexivity.
+              replace (Ascii.eqb bslash dquote) with false in * by reflexivity.
+              rewrite Ascii.eqb_refl in *. cbn [orb] in *.
+              apply IH; [cbn [length]; lia|intros _; exact Hd|exact Hs].
+      * rewrite pass_cons_nb by exact Hcb. cbn [flat_map].
+        assert (Hrest : lit_safe false (d :: s'') = true).
+        { cbn [lit_safe] in Hs. destruct st.
+          - apply andb_true_iff in Hs. tauto.
+          - destruct (Ascii.eqb c dquote || Ascii.eqb c lfchar); [discriminate|].
+            rewrite Hcb in Hs. exact Hs. }
+        apply (Hemit (d :: s'')); [exact Hinv|first [exact Hcb|reflexivity]|exact Hs|exact Hrest|].
+        apply IH; [cbn [length]; lia|discriminate|exact Hrest].
+Qed.
+
+Theorem lit_safe_image : forall s, lit_safe false s = true ->
+  lit_safe false (escape (unescape s)) = true.
+Proof.
+  intros s H. rewrite unescape_pass, escape_bytewise.
+  apply (lit_safe_esc_unesc (length s) s false (le_n _)); [discriminate|exact H].
+Qed.
+
+(** ASCII is preserved by unescape *)
+Lemma unesc_asc_n : forall n (s : str), (length s <= n)%nat ->
+  forallb is_asc s = true -> forallb is_asc (unesc_pass unesc_byte s) = true.
+Proof.
+  induction n as [|n IH]; intros s Hn Ha.
+  - destruct s; [reflexivity|cbn [length] in Hn; lia].
+  - destruct s as [|c [|d s'']]; [reflexivity|exact Ha|]. cbn [length] in Hn.
+    cbn [forallb] in Ha. apply andb_true_iff in Ha. destruct Ha as [Hc Ha].
+    destruct (Ascii.eqb c bslash) eqn:Hcb.
+    + apply Ascii.eqb_eq in Hcb. subst c. destruct (unesc_byte d) as [y|] eqn:Hd.
+      * rewrite (pass_bs_some unesc_byte d y) by exact Hd.
+        destruct (unesc_some d y Hd) as (_ & _ & _ & _ & _ & Hy & _).
+        cbn [forallb]. rewrite Hy. apply andb_true_iff in Ha. destruct Ha as [_ Ha].
+        apply IH; [lia|exact Ha].
+      * rewrite pass_bs_none by exact Hd. cbn [forallb]. rewrite Hc. apply IH; [cbn [length]; lia|exact Ha].
+    + rewrite pass_cons_nb by exact Hcb. cbn [forallb]. rewrite Hc. apply IH; [cbn [length]; lia|exact Ha].
+Qed.
+
+(** C09 for string literals, complete for ASCII bodies: whatever string token
+    the scanner accepts, the value stored for it is printed as a literal that
+    is again one string token, and that token yields the same value. *)
+Theorem C09_string_token_roundtrip_ascii : forall uni body,
+  forallb is_asc body = true -> lit_safe false body = true ->
+  let tok := bs """" ++ body ++ bs """" in
+  let v := unescape (strip_dquotes tok) in
+  lex uni tok = Some [mkTok TString tok (-1)] /\
+  lex uni (param_string (FPStr v)) = Some [mkTok TString (param_string (FPStr v)) (-1)] /\
+  unescape (strip_dquotes (param_string (FPStr v))) = v.
+Proof.
+  intros uni body Ha Hs tok v. unfold v, tok. rewrite strip_dquotes_quoted.
+  assert (Hlex : forall w, forallb is_asc w = true -> lit_safe false w = true ->
+            lex uni (bs """" ++ w ++ bs """") = Some [mkTok TString (bs """" ++ w ++ bs """") (-1)]).
+  { intros w Hwa Hws. unfold lex, chars.
+    rewrite (c9_chars_quote_app w (asc_runes w) (chars_asc w Hwa)).
+    replace (34 =? bom) with false by reflexivity.
+    cbn [length]. rewrite tokens_string by (rewrite rsafe_asc; exact Hws).
+    assert (Hb : concat (map snd (asc_runes w)) = w).
+    { clear. induction w as [|c w IH]; [reflexivity|]. unfold asc_runes in *.
+      cbn [map concat snd app]. rewrite IH. reflexivity. }
+    rewrite Hb.
+    destruct (length (asc_runes w ++ [(34, bs """")])) as [|k] eqn:El.
+    { rewrite app_length in El. cbn [length] in El. lia. }
+    reflexivity. }
+  split; [apply Hlex; assumption|]. split.
+  - cbn [param_string]. apply Hlex.
+    + rewrite escape_bytewise. apply escape_asc. rewrite unescape_pass.
+      apply (unesc_asc_n (length body)); [apply le_n|exact Ha].
+    + apply lit_safe_image. exact Hs.
+  - cbn [param_string]. rewrite strip_dquotes_quoted. apply C09_unescape_escape_on_image.
+Qed.
+
+(** the stronger notion is not necessary: backslash-quote is not clean, yet survives *)
+Example C09_clean_not_necessary :
+  let v := unescape (bs "\\\""") in
+  v = [bslash; bslash; dquote] /\ ~ clean v /\ wclean v /\ unescape (escape v) = v.
+Proof. vm_compute. repeat split; try reflexivity. discriminate. Qed.
+
+(* ================================================================== *)
+(** * UTF-8: runes that decode to themselves                            *)
+(* ================================================================== *)
+(* Utf8.v — runes produced by chars_fuel are self-decoding, lists of
+   self-decoding runes decode back from their bytes, and the byte shape of runes. *)
+
+(* a rune whose bytes decode to itself whatever follows *)
+Definition u8_good_rune (rb : Z * str) : Prop :=
+  snd rb <> [] /\ fst rb <> 0 /\
+  forall t, decode_rune (snd rb ++ t) = (fst rb, length (snd rb)) /\
+            ((fst rb =? rune_error) && (length (snd rb) =? 1)%nat = false).
+
+(** rewrite the conditions already decided by [rp_break] *)
+Ltac u8_rew :=
+  repeat match goal with
+         | H : ?c = _ |- context [if ?c then _ else _] => rewrite H
+         end.
+
+(** a successful decode is determined by the [w] bytes it consumed *)
+Lemma u8_decode_rune_firstn : forall s r w,
+  s <> [] -> decode_rune s = (r, w) ->
+  (r =? rune_error) && (w =? 1)%nat = false ->
+  decode_rune (firstn w s) = (r, w) /\ length (firstn w s) = w /\ firstn w s <> [].
+Proof.
+  intros s r w Hne H E. revert H.
+  destruct s as [|b0 [|b1 [|b2 [|b3 s]]]]; [congruence| | | |];
+    unfold decode_rune at 1; cbv zeta;
+    rp_break; intros H; inversion H; subst r w;
+    try (exfalso; discriminate E);
+    cbn [firstn length]; (split; [|split; [reflexivity|discriminate]]);
+    unfold decode_rune; cbv zeta; u8_rew; reflexivity.
+Qed.
+
+Lemma u8_decode_good : forall s r w,
+  s <> [] -> decode_rune s = (r, w) ->
+  (r =? rune_error) && (w =? 1)%nat = false -> r <> 0 ->
+  u8_good_rune (r, firstn w s).
+Proof.
+  intros s r w Hne D E H0.
+  destruct (u8_decode_rune_firstn _ _ _ Hne D E) as (D' & Hl & Hne').
+  unfold u8_good_rune. cbn [fst snd]. split; [exact Hne'|split; [exact H0|]].
+  intros t. rewrite Hl. split; [|exact E].
+  exact (proj1 (rp_decode_rune_app _ t _ _ Hne' D' E)).
+Qed.
+
+(** (1) every rune of a successful [chars_fuel] is self-decoding *)
+Lemma u8_chars_good : forall n s cs, (length s < n)%nat ->
+  chars_fuel n s = Some cs -> Forall u8_good_rune cs /\ concat (map snd cs) = s.
+Proof.
+  intros n s cs Hn H. split; [|exact (rp_chars_fuel_bytes _ _ _ H Hn)].
+  revert s cs Hn H. induction n as [|n IH]; intros s cs Hn H; [lia|].
+  destruct s as [|c s].
+  - cbn in H. inversion H. constructor.
+  - assert (Hne : c :: s <> []) by discriminate.
+    rewrite (rp_chars_fuel_S n _ Hne) in H.
+    destruct (decode_rune (c :: s)) as [r w] eqn:D.
+    pose proof (rp_decode_rune_width _ _ _ Hne D) as Hw.
+    destruct ((r =? rune_error) && (w =? 1)%nat) eqn:E1; [discriminate|].
+    destruct (r =? 0) eqn:E2; [discriminate|].
+    destruct (chars_fuel n (skipn w (c :: s))) as [l|] eqn:E3; [|discriminate].
+    inversion H; subst cs. constructor.
+    + apply u8_decode_good; auto. apply Z.eqb_neq, E2.
+    + apply (IH _ _) in E3; [exact E3|].
+      rewrite skipn_length. cbn [length] in *. lia.
+Qed.
+
+(** (2) self-decoding runes decode back from their concatenated bytes *)
+Lemma u8_good_chars : forall cs, Forall u8_good_rune cs ->
+  forall n, (length (concat (map snd cs)) < n)%nat ->
+  chars_fuel n (concat (map snd cs)) = Some cs.
+Proof.
+  intros cs H. induction H as [|[r b] cs (Hb & Hr & Hd) Hcs IH]; intros n Hn.
+  - destruct n; [lia|reflexivity].
+  - cbn [fst snd] in *. cbn [map concat snd] in *.
+    destruct n as [|n]; [lia|].
+    assert (Hlb : (1 <= length b)%nat) by (destruct b; [congruence|cbn [length]; lia]).
+    assert (Hne : b ++ concat (map snd cs) <> []) by (destruct b; [congruence|discriminate]).
+    destruct (Hd (concat (map snd cs))) as (D & E).
+    rewrite (rp_chars_fuel_S n _ Hne), D, E.
+    apply Z.eqb_neq in Hr. rewrite Hr.
+    rewrite skipn_app, firstn_app, skipn_all, firstn_all, Nat.sub_diag.
+    cbn [skipn firstn app]. rewrite app_nil_r.
+    rewrite IH; [reflexivity|].
+    rewrite app_length in Hn. lia.
+Qed.
+
+(** hence, for self-decoding runes, the two views coincide *)
+Lemma u8_good_chars_iff : forall cs n, (length (concat (map snd cs)) < n)%nat ->
+  (Forall u8_good_rune cs <-> chars_fuel n (concat (map snd cs)) = Some cs).
+Proof.
+  intros cs n Hn. split.
+  - intros H. apply u8_good_chars; assumption.
+  - intros H. exact (proj1 (u8_chars_good _ _ _ Hn H)).
+Qed.
+
+(** (3) the byte shape of a decoded rune *)
+Lemma u8_byte_nonneg : forall c, 0 <= byte c.
+Proof. intros c. unfold byte. lia. Qed.
+
+Ltac u8_bools :=
+  unfold in_rng, is_cont in *;
+  repeat match goal with
+         | H : context [if ?c then _ else _] |- _ => destruct c eqn:?
+         | H : _ && _ = true |- _ => apply andb_true_iff in H; destruct H
+         | H : (_ <=? _) = true |- _ => apply Z.leb_le in H
+         | H : (_ <? _) = true |- _ => apply Z.ltb_lt in H
+         | H : (_ <? _) = false |- _ => apply Z.ltb_ge in H
+         | H : (_ =? _) = true |- _ => apply Z.eqb_eq in H
+         | H : (_ =? _) = false |- _ => apply Z.eqb_neq in H
+         end.
+
+Lemma u8_decode_rune_shape : forall s r w,
+  s <> [] -> decode_rune s = (r, w) ->
+  (r =? rune_error) && (w =? 1)%nat = false -> r <> 0 ->
+  (0 < r < 128 /\ exists c, firstn w s = [c] /\ byte c = r) \/
+  (128 <= r /\ firstn w s <> [] /\ Forall (fun c => 128 <= byte c) (firstn w s)).
+Proof.
+  intros s r w Hne H E H0. revert H.
+  destruct s as [|b0 [|b1 [|b2 [|b3 s]]]]; [congruence| | | |];
+    unfold decode_rune; cbv zeta;
+    rp_break; intros H; inversion H; subst r w;
+    try (exfalso; discriminate E);
+    cbn [firstn]; clear H E;
+    pose proof (u8_byte_nonneg b0);
+    u8_bools;
+    first [ left; split; [lia|eexists; split; reflexivity]
+          | right; split; [lia|split; [discriminate|repeat constructor; lia]] ].
+Qed.
+
+Lemma u8_rune_shape : forall n s cs, (length s < n)%nat ->
+  chars_fuel n s = Some cs ->
+  Forall (fun rb => (0 < fst rb < 128 /\ exists c, snd rb = [c] /\ byte c = fst rb) \/
+                    (128 <= fst rb /\ snd rb <> [] /\ Forall (fun c => 128 <= byte c) (snd rb))) cs.
+Proof.
+  induction n as [|n IH]; intros s cs Hn H; [lia|].
+  destruct s as [|c s].
+  - cbn in H. inversion H. constructor.
+  - assert (Hne : c :: s <> []) by discriminate.
+    rewrite (rp_chars_fuel_S n _ Hne) in H.
+    destruct (decode_rune (c :: s)) as [r w] eqn:D.
+    pose proof (rp_decode_rune_width _ _ _ Hne D) as Hw.
+    destruct ((r =? rune_error) && (w =? 1)%nat) eqn:E1; [discriminate|].
+    destruct (r =? 0) eqn:E2; [discriminate|].
+    destruct (chars_fuel n (skipn w (c :: s))) as [l|] eqn:E3; [|discriminate].
+    inversion H; subst cs. constructor.
+    + cbn [fst snd]. apply u8_decode_rune_shape; auto. apply Z.eqb_neq, E2.
+    + apply (IH _ _) in E3; [exact E3|].
+      rewrite skipn_length. cbn [length] in *. lia.
+Qed.
+
+(** and conversely an ASCII non-NUL byte is a good rune *)
+Lemma u8_good_ascii : forall c, 0 < byte c < 128 -> u8_good_rune (byte c, [c]).
+Proof.
+  intros c Hc. unfold u8_good_rune. cbn [fst snd length app].
+  split; [discriminate|split; [lia|]]. intros t.
+  unfold decode_rune.
+  replace (byte c <? 128) with true by (symmetry; apply Z.ltb_lt; lia).
+  replace (byte c =? rune_error) with false by (symmetry; apply Z.eqb_neq; unfold rune_error; lia).
+  split; reflexivity.
+Qed.
